@@ -441,16 +441,23 @@ func (w *World) evalIdent(env *CEnv, name string) *Val {
 // localByName finds a local variable of the function by its source name;
 // "name#2" selects the second variable of that name (in allocation order).
 func (w *World) localByName(env *CEnv, name string) *Val {
+	fr := env.fr
+	if fr.top {
+		// a binding of the full name ("x#2" := "y") wins over one of the base name
+		if r, ok := w.toReal[name]; ok {
+			name = r
+		} else if i := strings.Index(name, "#"); i > 0 {
+			name = w.realNameOf(name[:i]) + name[i:]
+		} else {
+			name = w.realNameOf(name)
+		}
+	}
 	want, ord := name, 1
 	if i := strings.Index(name, "#"); i > 0 {
 		want = name[:i]
 		fmt.Sscanf(name[i+1:], "%d", &ord)
 	}
 	n := 0
-	fr := env.fr
-	if fr.top {
-		want = w.realNameOf(want)
-	}
 	for _, b := range fr.fn.Blocks {
 		for _, ins := range b.Instrs {
 			a, ok := ins.(*ssa.Alloc)
@@ -575,6 +582,9 @@ func (w *World) localByNameExists(env *CEnv, name string) bool {
 	}
 	if env.fr.top {
 		name = w.realNameOf(name)
+	}
+	if i := strings.Index(name, "#"); i > 0 {
+		name = name[:i]
 	}
 	for _, b := range env.fr.fn.Blocks {
 		for _, ins := range b.Instrs {
@@ -783,6 +793,24 @@ func (w *World) evalCall(env *CEnv, e *CExpr) *Val {
 			}
 		}
 		unsupported("ranged(%d): loop %d is not a range over a slice", args[0].Int, args[0].Int)
+	case "rangeidx":
+		// rangeidx(K): the hidden index of the range-over-slice loop K (-1 before the first element)
+		if len(args) != 1 || args[0].Op != "lit.int" || env.fr == nil || env.fr.loops == nil {
+			unsupported("rangeidx(K) takes a loop ordinal")
+		}
+		for h, k := range env.fr.loops.isHeader {
+			if k != int(args[0].Int) {
+				continue
+			}
+			if a := rangeIndexAlloc(h); a != nil {
+				v, live := env.cur.cells[cellID{env.fr.id, a}]
+				if !live {
+					unsupported("rangeidx(%d): the loop is not running where the contract mentions it", args[0].Int)
+				}
+				return &Val{T: v, Typ: intT}
+			}
+		}
+		unsupported("rangeidx(%d): loop %d is not a range over a slice", args[0].Int, args[0].Int)
 	case "prev":
 		// prev(K, e): the value of e at the head of loop K in this iteration
 		if len(args) != 2 || args[0].Op != "lit.int" {
@@ -1044,5 +1072,24 @@ func (w *World) evalVisited(env *CEnv, args []*CExpr) *Val {
 		}
 	}
 	unsupported("no map range %d in function", ord)
+	return nil
+}
+
+// rangeIndexAlloc returns the hidden index variable of a compiler-generated range-over-slice loop header.
+func rangeIndexAlloc(h *ssa.BasicBlock) *ssa.Alloc {
+	if h.Comment != "rangeindex.loop" {
+		return nil
+	}
+	for _, ins := range h.Instrs {
+		if cmp, ok := ins.(*ssa.BinOp); ok && cmp.Op == token.LSS {
+			if inc, ok := cmp.X.(*ssa.BinOp); ok && inc.Op == token.ADD {
+				if ld, ok := inc.X.(*ssa.UnOp); ok {
+					if a, ok := ld.X.(*ssa.Alloc); ok && a.Comment == "rangeindex" {
+						return a
+					}
+				}
+			}
+		}
+	}
 	return nil
 }
